@@ -16,7 +16,7 @@ KEYWORDS = ['alias', 'annotation', 'annotation_type', 'attrs', 'by', 'deprecated
             'union', 'union_closed']
 PUNCT = list('()[]{}=,.:?@*/')
 LITS = ['0', '-1', '1.5', '1e3', '"s"', 'true', 'false', 'null', 'x1', '""', '18446744073709551616',
-        '-0', '1.', '"a\\"b"']
+        '-0', '1.', '"a\\"b"', '"%Y %Y"', '"a{99999999999}"', '"(a"', '"%Q"']
 TYPES = ['String', 'Int32', 'UInt64', 'Float64', 'Boolean', 'Bytes', 'Timestamp', 'List', 'Map', 'Void']
 STRAY = ['\t', '\r', '$', '"', '\\', '\x00', 'é', ' ', '`', ';', '!', '~', '^', '&', '|', '<', '>', "'", '%']
 
@@ -40,7 +40,7 @@ EDITS = ['delete', 'duplicate', 'swap', 'replace_kind', 'literal_kind', 'indent_
 DEF_KEYWORDS = ('struct', 'union', 'union_closed', 'alias', 'annotation', 'annotation_type', 'route')
 HUGE = ['1' + '0' * 400, '-1' + '0' * 400, '1e999', '-1e999', '1e-999', '0.' + '0' * 400 + '1',
         '1' + '0' * 400 + '.5', '9' * 30, '1e308', '1.8e308', '340282346638528859811704183484516925440',
-        '340282356779733661637539395458142568448']
+        '340282356779733661637539395458142568448', '7' * 5000]
 REF_TAGS = ['field', 'route', 'type', 'val', 'link', 'nope']
 
 
